@@ -43,11 +43,45 @@ Fixpoint json_eqb (a b : json) : bool :=
   | _, _ => false
   end.
 
-(* validator verdict + generator-model comparison for one request *)
+(* first difference between two documents: path and the two leaves (None = equal); keeps the output short *)
+Fixpoint jdiff (a b : json) : option string :=
+  match a, b with
+  | JNull, JNull => None
+  | JBool x, JBool y => if Bool.eqb x y then None else Some "bool"%string
+  | JNum x, JNum y => if Qeq_bool x y then None else Some (": number " ++ qs x ++ " vs " ++ qs y)%string
+  | JStr x, JStr y => if String.eqb x y then None else Some (": string '" ++ x ++ "' vs '" ++ y ++ "'")%string
+  | JArr la, JArr lb =>
+      (fix go (i : Z) (la lb : list json) : option string :=
+         match la, lb with
+         | [], [] => None
+         | x :: ta, y :: tb =>
+             match jdiff x y with
+             | Some d => Some ("[" ++ zs i ++ "]" ++ d)%string
+             | None => go (i + 1) ta tb
+             end
+         | _, _ => Some ": array length"%string
+         end) 0 la lb
+  | JObj la, JObj lb =>
+      (fix go (la lb : list (string * json)) : option string :=
+         match la, lb with
+         | [], [] => None
+         | (k, x) :: ta, (k', y) :: tb =>
+             if String.eqb k k' then
+               match jdiff x y with
+               | Some d => Some ("/" ++ k ++ d)%string
+               | None => go ta tb
+               end
+             else Some (": key '" ++ k ++ "' vs '" ++ k' ++ "'")%string
+         | _, _ => Some ": object size"%string
+         end) la lb
+  | _, _ => Some ": kind"%string
+  end.
+
+(* validator verdict + generator-model comparison (model vs implementation) for one request *)
 Definition check_case (o : obs) (resp : json) : string :=
   ("V:" ++ bs (response_ok o resp) ++ ";" ++
    match pathresult o with
-   | Ok j => if json_eqb j resp then "G:T" else "G:F:" ++ render j
+   | Ok j => match jdiff j resp with None => "G:T" | Some d => "G:F:" ++ d end
    | Err e => "G:E:" ++ e
    end)%string.
 
@@ -75,7 +109,7 @@ Definition FA (den : positive) (l : list (option Z)) : list xq :=
 (* the implementation raised while building the response: what does the model do? *)
 Definition check_raise (o : obs) : string :=
   match pathresult o with
-  | Ok j => ("G:OK:" ++ render j)%string
+  | Ok j => "G:OK"%string
   | Err e => ("G:E:" ++ e)%string
   end.
 
